@@ -999,12 +999,46 @@ def check_start(ctx, s, task, t):
             ctx.violate("C02", "started_before_predecessors",
                         f"{s.uname} started at {t}; predecessors done={done}",
                         {"terminal": bool(node.get("terminal"))})
+        elif node.get("terminal"):
+            # "... for the join node of a conditional, the one branch that was taken": the completed parent must
+            # be the one through which the taken branch feeds the join, not a node of a branch that should not
+            # have run at all
+            try:
+                _check_join_branch(ctx, s, t, par)
+            except HarnessError:
+                raise
+            except Exception:
+                pass
     if s.chosen_time is not None and t < s.chosen_time:
         ctx.violate("C03", "started_before_chosen_time",
                     f"{s.uname} started at {t}, scheduler chose {s.chosen_time}", {})
     if s.chosen_time is None:
         ctx.violate("C03", "started_without_decision", f"{s.uname} started at {t} with no scheduling "
                     f"decision observed", {})
+
+
+def _check_join_branch(ctx, s, t, par):
+    from . import oracles
+
+    choices = getattr(ctx, "cond_choices", {})
+    for (graph, cnode), ch in choices.items():
+        if graph != s.graph or oracles.matching_terminal(ctx, s.base, cnode) != s.node:
+            continue
+        rel_, dfr_ = ch.get("released") or [], ch.get("deferred") or []
+        taken = rel_[0] if len(rel_) == 1 else (dfr_[0] if not rel_ and len(dfr_) == 1 else None)
+        if taken is None:
+            continue
+        if taken == s.node:
+            continue  # the empty branch was taken: the conditional itself feeds the join
+        taken_nodes = set(oracles.branch_nodes(ctx, s.base, taken, s.node)) | {taken}
+        feeders = [(p, ps) for p, ps in par if p in taken_nodes]
+        if not feeders:
+            continue
+        if not all(ps is not None and ps.finishes > 0 and ps.state == "COMPLETED" for _, ps in feeders):
+            ctx.violate("C02", "join_started_before_taken_branch",
+                        f"{s.uname} started at {t}; conditional {cnode} took {taken}, whose feeder(s) "
+                        f"{[p for p, _ in feeders]} have not completed (completed parents: "
+                        f"{[p for p, ps in par if ps is not None and ps.state == 'COMPLETED']})", {})
 
 
 def check_finish(ctx, s, task):
